@@ -16,7 +16,7 @@ PROPERTY = "C12"
 RULE = (
     "cases are (pairs) every ordered pair of the 14 units x {+, -, /, <, <=, ==} x 8 amount pairs, enumerated "
     "exhaustively, (values) every unit x ppi x supplied/withheld context, enumerated, (sampled) generated decimal "
-    "amounts (sign, fraction, exponent) for values, binary operations and conversions. Non-trivial = two different "
+    "amounts (sign, fraction, exponent) for values (percentages with the reference length given as a number, as text or as a Length in any of the 12 other units), binary operations and conversions. Non-trivial = two different "
     "units with both amounts non-zero (binary operations) / a unit other than px/unitless (values); distinct by "
     "the case."
 )
@@ -36,7 +36,7 @@ PXF = {"": Fraction(1), "px": Fraction(1), "pt": Fraction(4, 3), "pc": Fraction(
 INF_EXACT = {"in": Fraction(1), "cm": Fraction(100, 254), "mm": Fraction(10, 254)}
 INF_LIB = {"in": Fraction(1), "cm": Fraction("0.393701"), "mm": Fraction("0.0393701")}
 OPS = ["+", "-", "/", "<", "<=", "=="]
-MANDATORY_LABELS = {"quick": ["op:%s" % o for o in OPS] + ["value:%s" % (u or "none") for u in UNITS] + ["to:mm", "to:cm", "to:inch"]}
+MANDATORY_LABELS = {"quick": ["op:%s" % o for o in OPS] + ["value:%s" % (u or "none") for u in UNITS] + ["to:mm", "to:cm", "to:inch"] + ["relunit:%s" % u for u in ("px", "pt", "pc", "in", "cm", "mm", "em", "ex", "vw", "vh", "vmin", "vmax")]}
 MANDATORY_LABELS["thorough"] = MANDATORY_LABELS["quick"]
 
 AMOUNT_PAIRS = [("2", "3"), ("3", "2"), ("1.5", "-4"), ("-2.25", "0.5"), ("10", "10"), ("1e1", ".25"), ("0", "7"), ("5", "0")]
@@ -123,11 +123,12 @@ def decode(d):
         op = d.choice(OPS)
         return {"kind": "binop", "op": op, "a": amount_text(d) + ua, "b": amount_text(d) + ub}
     if kind == "value":
-        u = d.choice(UNITS)
+        u = d.choice(UNITS + ["%", "%", "%"])
         w, h = gen.loguniform(d, 0.0, 3.0, signed=False), gen.loguniform(d, 0.0, 3.0, signed=False)
         return {
             "kind": "value", "a": amount_text(d) + u, "ppi": d.choice([72, 96, 100, 254, 300]), "give": d.chance(6, 8),
             "rel": gen.loguniform(d, -1.0, 4.0, signed=False), "relkind": d.choice(["number", "string", "length", "unit-string"]),
+            "relunit": d.choice(["px", "px", "pt", "pc", "in", "cm", "mm", "em", "ex", "vw", "vh", "vmin", "vmax"]),
             "fs": gen.loguniform(d, 0.0, 2.0, signed=False), "fh": gen.loguniform(d, 0.0, 2.0, signed=False),
             "vb": "%s %s %s %s" % (repr(gen.small_coord(d)), repr(gen.small_coord(d)), repr(w), repr(h)),
         }
@@ -207,17 +208,24 @@ def check_value(case):
     vbnums = [Fraction(float(v)) for v in case["vb"].split()]
     ctx = {}
     kw = {}
+    alt_ctx = None
     if give:
         ctx = {"ppi": case["ppi"], "rel": Fraction(float(case["rel"])), "fs": Fraction(float(case["fs"])), "fh": Fraction(float(case["fh"])), "vb": (vbnums[2], vbnums[3])}
         rk = case.get("relkind", "number")
+        ru = case.get("relunit", "px")
         if rk == "number":
             rel = case["rel"]
         elif rk == "string":
             rel = repr(case["rel"])
-        elif rk == "unit-string":
-            rel = repr(case["rel"]) + "px"
         else:
-            rel = se.Length(repr(case["rel"]))
+            # the reference length carries a unit of its own and is resolved in the same context first
+            rel = repr(case["rel"]) + ru
+            if rk == "length":
+                rel = se.Length(rel)
+            o.label("relunit:%s" % ru)
+            if ru in ("mm", "cm"):
+                alt_ctx = dict(ctx, rel=resolve(ctx["rel"], ru, ctx, INF_LIB))
+            ctx["rel"] = resolve(ctx["rel"], ru, ctx, INF_EXACT)
         o.label("rel:%s" % rk)
         kw = {"ppi": case["ppi"], "relative_length": rel, "font_size": case["fs"], "font_height": case["fh"], "viewbox": case["vb"]}
         o.label("vb:%s" % ("wide" if vbnums[2] > vbnums[3] else "tall"))
@@ -231,6 +239,8 @@ def check_value(case):
         o.nontrivial = unit not in ("", "px")
         return o.ok()
     alt = resolve(amount, unit, ctx, INF_LIB) if unit in ("mm", "cm") else None
+    if unit == "%" and give and alt_ctx is not None:
+        alt = resolve(amount, unit, alt_ctx, INF_LIB)  # a mm/cm reference length carries the inch-constant finding
     bad = judge(o, got, exact, alt, "Length(%r).value(%s)" % (case["a"], ", ".join("%s=%r" % kv for kv in sorted(kw.items(), key=lambda kv: kv[0]))), "value:%s" % (unit or "none"))
     if bad is not None:
         return bad
